@@ -1,0 +1,15 @@
+//go:build verif
+
+package serialize
+
+// Contracts for the deductive verifier under /verif (govc). This file contains
+// only comments: it adds no code with or without the build tag.
+
+// What the transports rely on from a serializer (the codecs themselves are
+// third-party code and are trusted): serialising changes no modelled state,
+// and deserialising yields a real message or an error.
+//@ iface (Serializer) Serialize
+//@   modifies fresh []byte
+//@ iface (Serializer) Deserialize
+//@   modifies nothing
+//@   ensures [message-or-error] isnil(result1) ==> wellformed(result0)
